@@ -97,6 +97,7 @@ def prepare(tier, scratch):
                     if e["skip"]:
                         res.append(("skip", "%s.%s: %s" % (name, e["func"], e["skip"])))
             big = max([64] + list(hdr["secs"].values()) + [g["opts"].get("buf_bytes", 64)])
+            nwords = g["opts"].get("buf_bytes", 64) // 8
             for e in entries:
                 if e["skip"]:
                     continue
@@ -116,7 +117,8 @@ def prepare(tier, scratch):
                 smt = e["heavy"] and not e["fp"]
                 res.append(("ob", Ob("%s.%s.O%d" % (name, e["func"], level), "C01/c01.c", defs=defs, entry=e["entry"],
                                      cc=["-I" + TOOLS, "-I" + os.path.join(VERIF, "harness/E3"), "-I" + os.path.join(VERIF, "harness/C01")],
-                                     unwindset={"memcpy.0": big // 8 + 2, "memcpy.1": big + 2, "memcmp.0": big + 2, "memset.0": big + 2, "memset.1": 8 * big, "c01_bytes_diff.0": big + 2},
+                                     unwindset={"memcpy.0": big // 8 + 2, "memcpy.1": big + 2, "memcmp.0": big + 2, "memset.0": big + 2, "memset.1": 8 * big, "c01_bytes_diff.0": big + 2,
+                                                "c01_interp.0": 3 * nwords + 2, "c01_bufs_equal.0": 3 * nwords + 2, "c01_buf_fill.0": nwords + 2},
                                      unwind=40, paths=True, object_bits=12, checks="functional", timeout=900 if (e["heavy"] or e["fp"]) else 400,
                                      solver="z3" if smt else ("cadical" if e["fp"] else None), flags=FS_FLAGS,
                                      sample="%s at -O%d [%s]" % (e["sample"], level, g["source"]))))
@@ -199,6 +201,14 @@ META = {
         "functions returning stack addresses are compared on memory and logs only",
         "MXCSR / x87 control word at ABI defaults; AF, DF, alignment and x87 stack faults not modelled; long double = CBMC binary128 on both sides "
         "(long double CONSTANTS in data sections are excluded: their x87 bytes are not a CBMC long double)",
+        "post-processing of the lifted C (tools/gen_c01.py rewrite_lifted), both meaning-preserving: (1) absolute addresses of data/bss items -> the "
+        "same bytes in the interpreter dump's section arrays; (2) the zeroing idiom `xor r,r` is emitted as the constant 0 instead of (a ^ a), which "
+        "CBMC's simplifier does not fold (a loop counter initialised this way would otherwise fork a path at every later branch)",
+        "small argument ranges (trip counts, switch indices, alloca sizes, pointer offsets) are case-split in the harness: each value is its own "
+        "path with a concrete argument; all values of the range are still decided; --max-field-sensitivity-array-size 320 keeps concrete values "
+        "concrete through the interpreter's register frame and the machine stack",
+        "fp arithmetic on symbolic operands (same IEEE operator on both sides) is decided by SAT (CaDiCaL) on CBMC's float encoding; only in the "
+        "thorough tier; cbmc --fpa is unusable here (floats inside the interpreter's MIR_val_t union)",
         "cbmc --paths lifo: every path through interpreter x machine code is one solver query; a path on which the two sides would take different "
         "branches is explored like any other (the assertions then fail)"],
 }
